@@ -72,6 +72,7 @@ var c16Names = []string{
 	"com.example.v1.FooAlias",
 	"com.example.v1.Bar",
 	"io.k8s.api.apps.v1.ConfigMapArgs",
+	"com.example.v1.DeploymentAlias",
 }
 
 // path of the list whose merge key is observed, per kind
@@ -244,8 +245,14 @@ func genSchema16(g *Rng, id int) c16Schema {
 	} else if g.Chance(20) {
 		addPath(bar, g.Bool()) // a path without a definition
 	}
-	if g.Chance(30) {
-		add("io.k8s.api.apps.v1.Deployment", dep, g.Chance(50))
+	if g.Chance(35) {
+		// re-declares the built-in apps/v1 Deployment: under the built-in definition name, or under a name of its own
+		// (then two stored definitions claim the same group/version/kind: the one parsed last must win the index)
+		name := "io.k8s.api.apps.v1.Deployment"
+		if g.Chance(50) {
+			name = "com.example.v1.DeploymentAlias"
+		}
+		add(name, dep, g.Chance(50))
 		if g.Chance(30) {
 			addPath(dep, false)
 		}
@@ -406,6 +413,10 @@ type c16Tree struct {
 	Cfg []c16CfgSpec `json:"cfg,omitempty"`
 	// configMapGenerator / secretGenerator entries (names get a content-hash suffix): concurrent rounds only
 	Gens []c16Gen `json:"gens,omitempty"`
+	// a failure inside MakeCustomizedResMap that has nothing to do with the schema:
+	//   "missing-file" = a last `resources:` entry naming a file that does not exist;
+	//   "bad-patch"    = a last strategic-merge patch whose target (a Deployment) does not exist
+	Fail string `json:"fail,omitempty"`
 }
 
 type c16Gen struct {
@@ -422,7 +433,7 @@ type c16CfgSpec struct {
 	Field string `json:"field"`
 }
 
-var c16CfgKey = map[string]string{"namespace": "namespace", "labels": "commonLabels", "annotations": "commonAnnotations",
+var c16CfgKey = map[string]string{"namespace": "namespace", "labels": "commonLabels", "templatelabels": "templateLabels", "annotations": "commonAnnotations",
 	"prefix": "namePrefix", "suffix": "nameSuffix", "images": "images", "replicas": "replicas"}
 
 func (t *c16Tree) hasCfg(dir string) bool {
@@ -437,7 +448,7 @@ func (t *c16Tree) hasCfg(dir string) bool {
 // cfgYaml renders the `configurations:` file.
 func (t *c16Tree) cfgYaml() string {
 	var b strings.Builder
-	for _, dir := range []string{"namespace", "labels", "annotations", "prefix", "suffix", "images", "replicas"} {
+	for _, dir := range []string{"namespace", "labels", "templatelabels", "annotations", "prefix", "suffix", "images", "replicas"} {
 		first := true
 		for _, c := range t.Cfg {
 			if c.Dir != dir {
@@ -449,7 +460,7 @@ func (t *c16Tree) cfgYaml() string {
 			}
 			fmt.Fprintf(&b, "- path: %s/%s\n  kind: %s\n", c16CfgRoot(c.Kind), c.Field, c.Kind)
 			switch dir {
-			case "namespace", "labels", "annotations", "replicas":
+			case "namespace", "labels", "templatelabels", "annotations", "replicas":
 				b.WriteString("  create: true\n")
 			}
 		}
@@ -551,6 +562,9 @@ func (t *c16Tree) fs(schemas []c16Schema) filesys.FileSystem {
 			entries = append(entries, "base")
 		}
 	}
+	if t.Fail == "missing-file" {
+		entries = append(entries, "missing.yaml")
+	}
 	k.WriteString("resources:\n")
 	for _, e := range entries {
 		k.WriteString("- " + e + "\n")
@@ -567,6 +581,9 @@ func (t *c16Tree) fs(schemas []c16Schema) filesys.FileSystem {
 		}
 		if t.hasCfg("annotations") {
 			k.WriteString("commonAnnotations:\n  va: yv\n")
+		}
+		if t.hasCfg("templatelabels") {
+			k.WriteString("labels:\n- pairs:\n    tl: tv\n  includeTemplates: true\n")
 		}
 		if t.hasCfg("prefix") {
 			k.WriteString("namePrefix: p-\n")
@@ -613,10 +630,14 @@ func (t *c16Tree) fs(schemas []c16Schema) filesys.FileSystem {
 			}
 		}
 	}
-	if len(t.Patches) > 0 {
+	if len(t.Patches) > 0 || t.Fail == "bad-patch" {
 		k.WriteString("patches:\n")
 		for i := range t.Patches {
 			fmt.Fprintf(&k, "- path: p%d.yaml\n", i)
+		}
+		if t.Fail == "bad-patch" {
+			k.WriteString("- path: pbad.yaml\n")
+			_ = fs.WriteFile("/t/pbad.yaml", []byte(c16PatchYaml(c16Res{Kind: "Deployment", Name: "no-such-resource"})))
 		}
 	}
 	_ = fs.WriteFile("/t/kustomization.yaml", []byte(k.String()))
@@ -699,11 +720,24 @@ func (t *c16Tree) queries() []c16Query {
 	} else {
 		file()
 		base()
+		if t.HasBase {
+			// when the base's accumulator is merged into the parent's, the ids of the resources loaded BEFORE the base are
+			// computed again (resid.NewGvk): under a schema the base has just selected this is what initialises it. In a
+			// build that succeeds the later stages ask the same questions anyway; in one that fails right after, they do not.
+			file()
+		}
+	}
+	if t.Fail == "missing-file" {
+		return append(qs, c16Query{K: "fail"})
 	}
 	for _, p := range t.Patches {
 		r, _ := t.find(p)
 		qs = append(qs, c16Query{K: "ns", Tm: c16TmIndex(r.Kind)})
 		qs = append(qs, c16Query{K: "schema", Tm: c16TmIndex(r.Kind), Reveal: "mk:" + r.Name})
+	}
+	if t.Fail == "bad-patch" {
+		qs = append(qs, c16Query{K: "ns", Tm: c16TmIndex("Deployment")})
+		return append(qs, c16Query{K: "fail"})
 	}
 	if t.Namespace {
 		for _, r := range t.allRes() {
@@ -907,7 +941,13 @@ func c16Expect(seq c16Seq, res c16SeqRes) []string {
 					say(i, "SetSchema-without-reset-changed-a-set-schema", js(prev)+" -> "+js(cur))
 				}
 			case st.Class != ClsOk:
-				// rejected field: nothing to expect here (the model covers what is left behind)
+				// a rejected field (unknown version, version and schema together) may leave the version string behind, but
+				// it must not re-arm initSchema, touch the maps or the custom schema
+				want := prev
+				want.Version = cur.Version
+				if js(cur) != js(want) {
+					say(i, "rejected-SetSchema-changed-more-than-the-version", js(prev)+" -> "+js(cur))
+				}
 			case isDefaultField(op.Ver, op.Schema):
 				if prev.HasCustom {
 					if cur.HasCustom || cur.Version != "" || !dropped(cur) {
@@ -986,6 +1026,12 @@ func c16Expect(seq c16Seq, res c16SeqRes) []string {
 			}
 		case "build":
 			t := op.Tree
+			if t.Schema < 0 && t.Ver != nil && *t.Ver != "" && *t.Ver != cur.DefaultVersion && !prev.HasCustom {
+				// rejected by SetSchema (unknown version) before anything is built: the parsed schema must survive
+				if prev.SchemaInit && !cur.SchemaInit || mapsOf(cur) != mapsOf(prev) {
+					say(i, "rejected-build-disturbed-the-parsed-schema", js(prev)+" -> "+js(cur))
+				}
+			}
 			if isDefaultField(t.Ver, t.Schema) && (!t.HasBase || isDefaultField(t.BaseVer, t.BaseSchema)) {
 				if cur.HasCustom {
 					say(i, "custom-schema-installed-after-a-default-build", js(prev)+" -> "+js(cur))
@@ -1185,6 +1231,9 @@ func genTree16(g *Rng, nSchemas int, defaultOnly bool) *c16Tree {
 			t.Patches = append(t.Patches, r.Name)
 		}
 	}
+	if !defaultOnly && g.Chance(12) {
+		t.Fail = g.Pick([]string{"missing-file", "bad-patch"})
+	}
 	return t
 }
 
@@ -1305,6 +1354,8 @@ func c16BuildTerm(t *c16Tree, schemas []c16Schema) string {
 			qs = append(qs, "QSchema "+c16Tms[q.Tm].coq())
 		case "sub":
 			qs = append(qs, fmt.Sprintf("QSub %s %s", coqOptStr(q.Ver), c16SchemaOpt(schemas, q.Schema)))
+		case "fail":
+			qs = append(qs, "QFail")
 		}
 	}
 	return fmt.Sprintf("(mkBuild %s %s [%s])", coqOptStr(t.Ver), c16SchemaOpt(schemas, t.Schema), strings.Join(qs, "; "))
@@ -1490,6 +1541,9 @@ func runC16(r *Run, rng *Rng, tier string) error {
 					r.Count("build_base_field", c16FieldKind(op.Tree.BaseVer, op.Tree.BaseSchema))
 				}
 				r.Count("build_patches", fmt.Sprint(len(op.Tree.Patches)))
+				if op.Tree.Fail != "" {
+					r.Count("build_fail", op.Tree.Fail)
+				}
 			}
 		}
 		for _, e := range c16Expect(seq, res) {
